@@ -293,9 +293,9 @@ struct Sink
             std::string blk = txt.substr(bp, be == std::string::npos ? std::string::npos : be - bp);
             bp += 10;
             std::string frames, firstUser;
-            int nf = 0;
+            std::vector<std::string> sxFrames;
             size_t pos = 0;
-            while(nf < 2 && (pos = blk.find(" in ", pos)) != std::string::npos)
+            while((pos = blk.find(" in ", pos)) != std::string::npos)
             {
                pos += 4;
                size_t e = blk.find_first_of("\n", pos);
@@ -308,7 +308,16 @@ struct Sink
                   else if(ch == '>' || ch == ')') depth--;
                   else if(depth == 0)
                   {
-                     if(ch == ' ') break;
+                     if(ch == ' ')
+                     {
+                        // "void soplex::spx_alloc..." : drop a leading return type
+                        if(fn == "void" || fn == "int" || fn == "bool")
+                        {
+                           fn.clear();
+                           continue;
+                        }
+                        break;
+                     }
                      fn += ch;
                   }
                }
@@ -318,11 +327,13 @@ struct Sink
                if(!sx) continue;
                size_t q = fn.find("soplex::");
                if(q != std::string::npos) fn = fn.substr(q + 8);
-               if(!fn.empty() && frames.find(fn) == std::string::npos)
-               {
-                  frames += (nf ? "|" : "") + fn;
-                  nf++;
-               }
+               if(!fn.empty() && (sxFrames.empty() || sxFrames.back() != fn)) sxFrames.push_back(fn);
+            }
+            // key by the OUTERMOST soplex frames (the API call that leaked): all objects lost by one call share them
+            if(!sxFrames.empty())
+            {
+               frames = sxFrames.back();
+               if(sxFrames.size() >= 2 && sxFrames[sxFrames.size() - 2] != frames) frames += "|" + sxFrames[sxFrames.size() - 2];
             }
             if(frames.empty()) frames = "nosoplexframe:" + firstUser;
             if(!seenLeaks.insert(frames).second) continue;
